@@ -29,7 +29,7 @@ OPS = ["drop_B0", "shift_B0", "drop_TS0", "shift_TS0", "dup_B", "swap_B", "zero_
 
 def required(tier):
     return [f"op:{o}" for o in OPS] + ["pos:first", "pos:middle", "pos:last", "zero_last:no_governed_events",
-                                        "zero_last:governed_events", "single_tempo_map", "negative_tick_query_raises",
+                                        "zero_last:governed_events", "single_tempo_map", "negative_tick_query_raises", "negative_tick_rate_bound_raises",
                                         "ctor:BPMEvents:resolution<=0", "ctor:BPMEvents:empty", "ctor:BPMEvents:first_tick!=0:1", "ctor:BPMEvents:first_tick!=0:2",
                                         "ctor:BPMEvents:first_tick!=0:many", "ctor:SyncTrack:no_signature", "ctor:SyncTrack:first_signature!=0", "contract_evaluated"]
 
@@ -185,6 +185,30 @@ def negative_queries(rec, chart, text):
                 return
 
 
+def negative_rate_bounds(rec, chart, text):
+    """Chart.notes_per_second with a negative tick bound needs the time of a negative tick: ValueError, never a figure"""
+    for inst, m in chart.instrument_tracks.items():
+        for diff, tr in m.items():
+            if not tr.note_events:
+                continue
+            last = tr.note_events[-1].tick + 10
+            for args in ((-1,), (-5, last), (-(10**9), last), (0, -1), (None, -3)):
+                rec.ev()
+                case = {"text": text, "op": "negative_rate_bound", "k": list(args), "zero_tick": None}
+                try:
+                    r = chart.notes_per_second(inst, diff, *args)
+                    rec.violation("negative-tick-returns", f"notes_per_second({inst.name}, {diff.name}, {args}) returned {r!r} although a bound is a "
+                                  "negative tick, which has no time", case, "negative-tick-rate-bound-returns")
+                    return
+                except ValueError:
+                    rec.cls("negative_tick_rate_bound_raises")
+                except Exception as e:  # noqa
+                    rec.violation("wrong-error", f"notes_per_second(..., {args}) raised {harness.exc_str(e)}, not ValueError", case,
+                                  "negative-tick-wrong-exception")
+                    return
+            return
+
+
 def ctor_probes(rec, rng):
     import chartparse.sync as S
 
@@ -244,6 +268,7 @@ def run_shard(shard, rec, tier, seed):
             rec.diag(f"baseline rejected: {harness.exc_str(base.exc)}")
             continue
         negative_queries(rec, base.chart, case["text"])
+        negative_rate_bounds(rec, base.chart, case["text"])
         if nt == 1:
             rec.cls("single_tempo_map")
         # a variant whose last tempo governs no event: used for the 'zero tempo last without governed events' class
@@ -293,9 +318,10 @@ def replay(case, rec):
 
         ctor_probes(rec, random.Random(0))
         return
-    if case["op"] == "negative_query":
+    if case["op"] in ("negative_query", "negative_rate_bound"):
         out = harness.parse(case["text"])
         if out.ok:
             negative_queries(rec, out.chart, case["text"])
+            negative_rate_bounds(rec, out.chart, case["text"])
         return
     judge_fault(rec, case["op"], "replay", case["k"], case["text"], case["zero_tick"], {"tracks": {}})
